@@ -146,8 +146,32 @@ def _package_state_sites():
 _BASELINE = [(o, a, _copy.deepcopy(vars(o)[a])) for o, a in _package_state_sites()]
 
 
+def _package_caches():
+    """functools caches (lru_cache / cache) living in the package: process-global state as well."""
+    out = []
+    for name, mod in sorted(sys.modules.items()):
+        if mod is None or not (name == "pymemcache" or name.startswith("pymemcache.")):
+            continue
+        if name.startswith("pymemcache.test"):
+            continue
+        for attr, val in sorted(vars(mod).items()):
+            if callable(getattr(val, "cache_clear", None)):
+                out.append(val)
+            elif isinstance(val, type) and getattr(val, "__module__", None) == name:
+                for a2, v2 in sorted(vars(val).items()):
+                    f = getattr(v2, "__func__", v2)
+                    if callable(getattr(f, "cache_clear", None)):
+                        out.append(f)
+    return out
+
+
+_CACHES = _package_caches()
+
+
 def restore_package_state():
     n = 0
+    for c in _CACHES:
+        c.cache_clear()
     for o, a, base in _BASELINE:
         cur = vars(o).get(a)
         if type(cur) is type(base) and cur == base:
@@ -354,6 +378,24 @@ def _innermost_file(e):
     return fn or ""
 
 
+CALL_STACK_HEADROOM = 800
+
+
+def _library_recursed(e):
+    """A RecursionError belongs to whoever built the stack, not to the frame that happened to be innermost: when
+    hundreds of frames of the package under test are on it, it is the call's own outcome."""
+    if not isinstance(e, RecursionError):
+        return False
+    pkg = os.path.dirname(os.path.abspath(pymemcache.__file__))
+    n = 0
+    tb = e.__traceback__
+    while tb is not None:
+        if tb.tb_frame.f_code.co_filename.startswith(pkg):
+            n += 1
+        tb = tb.tb_next
+    return n >= 100
+
+
 def run_call(world, res, step_no, fn, method, faults=None, net=None, hooks=()):
     """Run one public call at the call boundary; records outcome; returns CallRec."""
     ctx = world.begin_call(step_no, method, faults, net)
@@ -364,21 +406,32 @@ def run_call(world, res, step_no, fn, method, faults=None, net=None, hooks=()):
     rec.extra = {}
     for h in hooks:
         h.before_call(world, res, rec)
+    # every public call gets the same stack headroom, however deep the harness itself happens to stand (worker
+    # process, in-process re-execution, fresh-interpreter replay): recursion depth is part of the deterministic run
+    depth = 0
+    f = sys._getframe()
+    while f is not None:
+        depth += 1
+        f = f.f_back
+    old_limit = sys.getrecursionlimit()
+    sys.setrecursionlimit(depth + CALL_STACK_HEADROOM)
     try:
         rec.value = fn()
         rec.exc = None
         rec.outcome = "return"
     except BaseException as e:  # the call boundary: what a caller would see
+        sys.setrecursionlimit(max(old_limit, depth + CALL_STACK_HEADROOM))
         if isinstance(e, HarnessError):
             raise
         if not isinstance(e, Exception) and not _is_sim_exc(e):
             raise
         if not _is_sim_exc(e) and _innermost_file(e).startswith(SIM_DIR) and \
-                not _innermost_file(e).endswith("userserde.py"):
+                not _innermost_file(e).endswith("userserde.py") and not _library_recursed(e):
             raise HarnessError("simulator raised %r" % (e,)) from e
         rec.value = None
         rec.exc = e
         rec.outcome = "raise"
+    sys.setrecursionlimit(old_limit)
     rec.fired = list(ctx.fired)
     rec.commands = ctx.commands
     rec.sent, rec.received = ctx.sent, ctx.received
@@ -428,6 +481,19 @@ def resolve_refs(j, res):
     if isinstance(j, list):
         return [resolve_refs(x, res) for x in j]
     return j
+
+
+def _mutate_in_place(v):
+    if isinstance(v, list):
+        v.append("dirty")
+    elif isinstance(v, dict):
+        v["dirty"] = True
+    elif isinstance(v, set):
+        v.add("dirty")
+    elif isinstance(v, bytearray):
+        v += b"dirty"
+    elif isinstance(v, codec.Point):
+        v.tag = "dirty"
 
 
 def execute(scn, hooks=()):
@@ -491,6 +557,14 @@ def execute(scn, hooks=()):
             elif t == "wipe":
                 for n in world.nodes.values():     # every server restarts empty (peer-side event)
                     n.store.clear()
+            elif t == "mutate":
+                # the application modifies the object an earlier fetch handed to it (without writing it back);
+                # the recorded result keeps a copy of what was returned
+                rec0 = res.by_step(st["ref"])
+                if rec0 is not None and rec0.outcome == "return":
+                    orig = rec0.value
+                    rec0.value = _copy.deepcopy(orig)
+                    _mutate_in_place(orig[0] if isinstance(orig, tuple) and len(orig) == 2 else orig)
             elif t == "recache":
                 # the application re-orders / replaces FallbackClient's public `caches` list at run time
                 orig = res.extra.setdefault("orig_caches", list(client.caches))
